@@ -18,6 +18,14 @@ Definition trait_name (t : dtrait) : string :=
 Definition model_derive (c : caseDerive) : outcome :=
   resolve (reparse_of (dc_or c)) (reparse_preds_of (dc_or c)) (dc_trait c) (dc_decl c).
 
+(** the harness reports a diagnostic placed at the call site (what an explicit call-site span
+    and no span both produce) as [None] *)
+Definition norm_diag (d : diag) : diag :=
+  match fst d with
+  | Some (1, 0, 1, 0)%N | Some (0, 0, 0, 0)%N => (None, snd d)
+  | _ => d
+  end.
+
 (** accept / reject, and on rejection the diagnostics: positions and messages, in order *)
 Definition agree_derive (c : caseDerive) : bool :=
   match d_panic (dc_obs c) with
@@ -31,7 +39,7 @@ Definition agree_derive (c : caseDerive) : bool :=
           end
       | Rejected errs =>
           match d_impls (dc_obs c) with
-          | [] => list_eqb (diag_eqb true) (diags_of errs) (d_diags (dc_obs c))
+          | [] => list_eqb (diag_eqb true) (map norm_diag (diags_of errs)) (d_diags (dc_obs c))
           | _ => false
           end
       end
@@ -42,3 +50,16 @@ Definition run_derive (holds : caseDerive -> bool) (cs : list caseDerive) : stri
               (combine (map N.of_nat (seq 0 (List.length cs))) cs)).
 
 Definition holds06c (c : caseDerive) : bool := holds06 (trait_name (dc_trait c)) (dc_obs c).
+
+From DarlingModel Require Import Spec.C10.
+
+(** C10 on the implementation's verdict *)
+Definition holds10 (c : caseDerive) : bool :=
+  match d_panic (dc_obs c) with
+  | Some _ => false
+  | None =>
+      let accepted := match d_impls (dc_obs c), d_diags (dc_obs c) with [_], [] => true | _, _ => false end in
+      let rejected := match d_impls (dc_obs c), d_diags (dc_obs c) with [], _ :: _ => true | _, _ => false end in
+      let wf := well_formed_10 (reparse_of (dc_or c)) (reparse_preds_of (dc_or c)) (dc_trait c) (dc_decl c) in
+      (accepted || rejected) && Bool.eqb accepted wf
+  end.
